@@ -194,6 +194,45 @@ def r4(ctx):
         ctx.ob(k, k not in missing and k not in wrong, f"castling validation: {missing.get(k) or wrong.get(k)}", site=site, sample={"colour": c, "king_square": sq})
 
 
+@rule("C06.R8", "castling-right predicates: contains(side, colour) tests that right's bit; contains_color(colour) tests exactly that colour's two rights")
+def r8(ctx):
+    """The two predicates validate_castle_rights branches on (opaque in R4), evaluated over all 16 right sets."""
+    P = ctx.P
+    g = R.Geo(P)
+    CONTAINS, CONTAINS_C = MG + "castle_rights::CastleRights::contains", MG + "castle_rights::CastleRights::contains_color"
+    colours = dict(P.enum_variants(COLOR))
+    sides = dict(P.enum_variants("chess_bitboard::side::Side"))
+    bit = lambda s, c: 1 << (g.side["K" if s == "King" else "Q"] + 2 * g.color[0 if c == "White" else 1])
+    word = ("field", ("param", 0, "self"), "0")
+    for key, params, spec in ((CONTAINS, ("side", "colour"), lambda r, s, c: bool(r & bit(s, c))),
+                              (CONTAINS_C, ("colour",), lambda r, c: bool(r & (bit("King", c) | bit("Queen", c))))):
+        ctx.used_body(key)
+        body = P.body(key)
+        eng = T.Engine(P)
+        lv = eng.tabulate(key)
+        prm = [("param", i, body["locals"][i + 1]["n"]) for i in range(body["argc"])]
+        types = [body["locals"][i + 1]["ty"] for i in range(body["argc"])]
+        doms = []
+        for ty in types[1:]:
+            doms.append(list((sides if ty.endswith("Side") else colours).items()))
+        bad, n = [], 0
+        import itertools
+        for r in range(16):
+            for combo in itertools.product(*doms):
+                env = {word: T.I(r, "u8")}
+                for p_, (nm, d) in zip(prm[1:], combo):
+                    env[("discr", p_)] = T.I(d, "isize")
+                    env[p_] = ("adt", types[prm.index(p_)], nm, ())
+                res = T.eval_table(eng, lv, env)
+                n += 1
+                names = [nm for nm, _ in combo]
+                want = spec(r, *names)
+                got = bool(res[1]) if T.is_const(res) else None
+                if got != want:
+                    bad.append((f"{r:04b},{','.join(names)}", f"{key.rsplit('::', 1)[1]}({', '.join(names)}) on rights {r:04b} is {got}, expected {want}"))
+        ctx.bulk(f"{key.rsplit('::', 1)[1]} truth table", n, bad, "castling-right predicate differs from its definition (bit = side + 2*colour)", sample={"cells": n})
+
+
 EP_RANKS = {"White": ("_6", "_5"), "Black": ("_3", "_4")}
 
 
